@@ -1,7 +1,13 @@
 """C15 — spatial index queries return exactly the matching items after any history.
 
 proof   : lean/GeosModel/Props/C15.lean  (history_refines & co. over the model of TemplateSTRtree)
-tie     : correspondence — generated histories run through GEOSSTRtree_* (C API -> TemplateSTRtree<void*>)
+tie     : translator (every run) — translate/cxx2lean.py (spec `strtree`) regenerates the geom::Envelope predicates (isNull, intersects,
+          disjoint, covers, contains, expandToInclude), EnvelopeTraits::{intersects,isNull}, TemplateSTRNode::{isLeaf,isDeleted,isComposite,
+          removeItem,getBounds,boundsIntersect} and TemplateSTRtreeImpl::{insert x2,sliceCount,sliceCapacity} into Generated/STRtree.lean;
+          Props/C15Gen.lean proves each equal to the model function (Env.inter/union/isNull/covers/containsPt, Node.isLeaf, Entry.deleted,
+          Tree.insert, STR.sliceCount/sliceCapacity) through the representations of Model/Index/Rep.lean, for all arguments (the slice
+          functions under the explicit hypothesis that ceil(a/b), ceil(sqrt(m)) are exact); stream `envpreds` runs the same C++ functions.
+          correspondence — generated histories run through GEOSSTRtree_* (C API -> TemplateSTRtree<void*>)
           and through the model; sliceCount/sliceCapacity/treeSize arithmetic compared with the
           C++ `ceil(sqrt(double))` code via a subclass exposing the protected members.
 Because the model's outputs are *proved* equal to the live-multiset specification, any disagreement
@@ -42,11 +48,12 @@ def parse_ops(case):
 
 def disagrees(exe, case):
     p = os.path.join(verif.BUILD, "work", "c15-shrink-%d.txt" % os.getpid())
+    os.makedirs(os.path.dirname(p), exist_ok=True)
     with open(p, "w") as f:
         f.write(case + "\n")
     rc, out = verif.sh([exe, "replay", p], timeout=60)
     impl = out.strip().split("\n")[-1] if out.strip() else ""
-    rc2, lines = verif.run_driver_lines("strtree", [case])
+    rc2, lines = verif.run_driver_lines("strslices" if case.startswith("E ") else "strtree", [case])
     model = lines[0] if lines else ""
     return (rc != 0 or impl != model), impl, model
 
@@ -78,11 +85,14 @@ def signature(case, impl, model):
 
 def run(ctx):
     ctx.base_trust([
-        "C15 model (lean/GeosModel/Model/Index/STR.lean) is hand-written from TemplateSTRtree.h; std::sort is abstracted as 'some permutation'",
+        "C15 model (lean/GeosModel/Model/Index/STR.lean) is hand-written from TemplateSTRtree.h; std::sort is abstracted as 'some permutation'; its envelope operations, node flags, null-envelope test of insert and slice arithmetic are proved equal to definitions regenerated from the C++ on every run (translate/cxx2lean.py + specs/strtree.py + t4ext.py — trusted: the translator's reading of the C++ fragment; templates read at BoundsTraits = EnvelopeTraits); the loops of query / remove / build / treeSize / nearest are outside the translator's fragment and tied by correspondence only",
+        "slice arithmetic: the bridge assumes ceil((double)a/(double)b) and ceil(sqrt((double)m)) exact (ExactCeil); for IEEE doubles this is sampled by stream strslices, not proved",
         "doubles are compared through an order-preserving integer key (Driver.f64Key); NaN ordinates excluded (null envelope = none)",
         "other indexes (SimpleSTRtree, legacy STRtree, SIRtree, SortedPackedIntervalRTree, Quadtree, KdTree, HotPixelIndex) are specified by the brute-force filter and tied by correspondence only (stream otheridx); MonotoneChain overlap search is not covered",
     ])
-    proved = ctx.prove(PROPS)
+    # translator tie: Generated/STRtree.lean is rewritten from Envelope.h / Envelope.cpp / TemplateSTRNode.h / TemplateSTRtree.h and
+    # proved equal (through the representations of Model/Index/Rep.lean) to the model functions the theorems rest on
+    proved = ctx.prove_generated([("strtree", "GeosModel/Generated/STRtree.lean", "GeosModel.Props.C15Gen")], PROPS)
     ok, out = verif.build_geos("rel")
     if not ok:
         ctx.violation("GEOS does not build with -DGEOS_VERIF", {"kind": "build-failure", "log": out[-3000:]}, nofail=True)
@@ -96,8 +106,11 @@ def run(ctx):
     n_sl = 20000 if quick else 4000000
     corr = {}
     found_input = False
-    for stream, n in (("strtree", n_hist), ("strslices", n_sl), ("otheridx", 20000 if quick else 6000000)):
-        r = verif.run_stream(exe, stream, ctx.seed, n, ctx.work, shards=min(verif.NPROC, 8))
+    for stream, n in (("strtree", n_hist), ("strslices", n_sl), ("envpreds", 40000 if quick else 4000000),
+                      ("otheridx", 20000 if quick else 6000000)):
+        # envpreds: the driver answers `E …` lines in its `strslices` handler (geosdrv's stream table is shared)
+        r = verif.run_stream(exe, stream, ctx.seed, n, ctx.work, shards=min(verif.NPROC, 8),
+                             driver_stream="strslices" if stream == "envpreds" else None)
         corr[stream] = {"cases": r["cases"], "disagreements": len(r["disagreements"]) + r.get("more_disagreements", 0),
                         "distribution": r["stats"]}
         ctx.cov["samples"] += r.get("samples", [])[:2]
@@ -129,6 +142,22 @@ def run(ctx):
                 ctx.violation("STRtree history: implementation output differs from the live-multiset specification (%s)" % json.dumps(sig),
                               {"kind": "failing-input", "stream": stream, "case": c2, "impl": impl, "spec": model,
                                "replay_cmd": "%s replay <file with case line>" % exe, "signature": sig}, signature=sig)
+            elif stream == "envpreds":
+                # exp = implementation, got = model: name the first group (null/int/cov/pt/exp/leaf/rm/par) that differs
+                grp = next((a.split("=")[0] for a, b in zip(exp.split(), got.split()) if a != b), "len")
+                sig = {"stream": "envpreds", "group": grp}
+                if sig in seen_sigs:
+                    continue
+                seen_sigs.append(sig)
+                found_input = True
+                what = {"null": "Envelope::isNull", "int": "Envelope::intersects / disjoint / EnvelopeTraits::intersects", "cov": "Envelope::covers / contains",
+                        "pt": "Envelope point predicates (covers/contains/intersects(x,y))", "exp": "Envelope::expandToInclude",
+                        "leaf": "TemplateSTRNode flags of a leaf (isLeaf/isDeleted/isComposite/boundsIntersect)",
+                        "rm": "TemplateSTRNode::removeItem / flags of a removed leaf",
+                        "par": "TemplateSTRNode flags / bounds of a composite node"}.get(grp, grp)
+                ctx.violation("%s differs from the specification on envelope pair: %s  impl: %s  spec: %s" % (what, case, exp, got),
+                              {"kind": "failing-input", "stream": stream, "case": case, "impl": exp, "spec": got, "signature": sig,
+                               "replay_cmd": "%s replay <file with case line>" % exe}, signature=sig)
             elif stream == "otheridx":
                 kind = case.split()[1] if len(case.split()) > 1 else "?"
                 sig = {"stream": "otheridx", "index": kind, "what": got.split()[2] if len(got.split()) > 2 else got}
